@@ -10,11 +10,26 @@ templates, name validity) are the real library functions, evaluated by the harne
 namespace Pint.Props.C01
 open Pint.Load
 
+/-- a scalar of another type anywhere in a rule is a type error for pint -/
+theorem other_blocks (r : RuleD)
+    (h : r.record = .other ∨ r.alert = .other ∨ r.expr = .other ∨
+         r.for_ = .otherValid ∨ r.for_ = .otherZero ∨ r.for_ = .otherInvalid ∨
+         r.keepFiring = .otherValid ∨ r.keepFiring = .otherZero ∨ r.keepFiring = .otherInvalid) : pintRule r = true := by
+  unfold pintRule
+  rcases h with h | h | h | h | h | h | h | h | h <;> simp [h]
+
+set_option maxHeartbeats 1600000 in
 theorem rule_sound (r : RuleD) (h : promRule r = true) : pintRule r = true := by
-  obtain ⟨isNull, isMap, record, alert, expr, rv, rb, ep, f, k, l, a, u, d⟩ := r
-  cases record <;> cases alert <;> cases expr <;>
-    simp_all [promRule, pintRule, promMapBad, mapPresentMap] <;>
-    (cases f <;> cases k <;> simp_all) <;> grind
+  by_cases ho : r.record = .other ∨ r.alert = .other ∨ r.expr = .other ∨
+         r.for_ = .otherValid ∨ r.for_ = .otherZero ∨ r.for_ = .otherInvalid ∨
+         r.keepFiring = .otherValid ∨ r.keepFiring = .otherZero ∨ r.keepFiring = .otherInvalid
+  · exact other_blocks r ho
+  · obtain ⟨isNull, isMap, record, alert, expr, rv, rb, ep, f, k, l, a, u, d⟩ := r
+    simp only [not_or] at ho
+    obtain ⟨h1, h2, h3, h4, h5, h6, h7, h8, h9⟩ := ho
+    cases record <;> cases alert <;> cases expr <;> simp at h1 h2 h3 <;>
+      simp_all [promRule, pintRule, promMapBad, mapPresentMap, pv, pd] <;>
+      (cases f <;> cases k <;> simp_all) <;> grind
 
 theorem rules_sound (rs : List RuleD) (h : rs.any promRule = true) : rs.any pintRule = true := by
   obtain ⟨r, hr, hp⟩ := List.any_eq_true.mp h
@@ -31,13 +46,11 @@ theorem groupOwn_sound (g : GroupD) (h : promGroupOwn g = true) : pintGroupOwn g
   · simp [h]
   · have : g.name = .coll := by simpa using h
     simp [this]
-  · simp [h]
-  · have : g.interval = .invalid := by simpa using h
-    simp [this]
+  · cases hn : g.name <;> simp_all [pv]
+  · cases hi : g.interval <;> simp_all [pd]
   · have : g.interval = .coll := by simpa using h
     simp [this]
-  · have : g.queryOffset = .invalid := by simpa using h
-    simp [this]
+  · cases hq : g.queryOffset <;> simp_all [pd]
   · have : g.queryOffset = .coll := by simpa using h
     simp [this]
   · have : g.limit = .other := by simpa using h
@@ -106,8 +119,8 @@ example : ∃ d : Doc, pintBlocks d = true ∧ promRejects d = false :=
 def okRule : RuleD :=
   { isNull := false, isMap := true, record := .val, alert := .absent, expr := .val, recordValid := true, recordBraces := false, exprParses := true,
     for_ := .absent, keepFiring := .absent,
-    labels := { kind := .absent, dupKey := false, collValue := false, badName := false, metricName := false, badValue := false, badTemplate := false, nonEmpty := false },
-    annotations := { kind := .absent, dupKey := false, collValue := false, badName := false, metricName := false, badValue := false, badTemplate := false, nonEmpty := false },
+    labels := { kind := .absent, dupKey := false, collValue := false, badName := false, metricName := false, badValue := false, badTemplate := false, nonEmpty := false, otherValue := false },
+    annotations := { kind := .absent, dupKey := false, collValue := false, badName := false, metricName := false, badValue := false, badTemplate := false, nonEmpty := false, otherValue := false },
     unknownKey := false, duplicateKey := false }
 def okGroup : GroupD :=
   { isNull := false, isMap := true, name := .val, nameText := "g", interval := .valid, queryOffset := .absent, limit := .absent,
